@@ -108,6 +108,22 @@ func init() {
 					for _, v := range valuePool {
 						emit(b.marker, setAt(b.vals, i, v), false)
 					}
+					// short coded elements: the valid value doubled, joined with the other bases' values of this element
+					// and with a neighbouring letter (a membership test must not accept runs or fragments of codes)
+					if v0 := b.vals[i]; v0 != "" && len(v0) <= 4 {
+						cands := []string{v0 + v0, v0 + "X", "X" + v0, v0[:len(v0)-1], strings.ToLower(v0)}
+						for _, b2 := range bases[tt.Name] {
+							if v2 := b2.vals[i]; v2 != "" && v2 != v0 {
+								cands = append(cands, v0+v2, v2+v0)
+							}
+						}
+						for _, c := range codeRuns {
+							cands = append(cands, c)
+						}
+						for _, v := range cands {
+							emit(b.marker, setAt(b.vals, i, v), false)
+						}
+					}
 				}
 				// pairs of emptied elements (trailing-delimiter collapsing)
 				for i := range tt.Elems {
@@ -202,6 +218,9 @@ func init() {
 		}
 	}
 }
+
+// runs of adjacent one-letter codes (identification codes, charge details, test/production codes)
+var codeRuns = []string{"BC", "CD", "DF", "FU", "BCD", "CDF", "DFU", "BCDFU", "TP", "BS", "12", "123", "BCDFTU"}
 
 func unhexs(h string) []byte {
 	if h == "-" {
